@@ -127,6 +127,18 @@ func generate(g *Gen, prop string, n int, w *bufio.Writer) {
 		for i := 0; i < n; i++ {
 			g.genRaw(np())
 		}
+	case "C13":
+		for i := 0; i < n; i++ {
+			g.genText(np())
+		}
+	case "C11":
+		for i := 0; i < n; i++ {
+			g.genRoundTrip(np())
+		}
+	case "C12":
+		for i := 0; i < n; i++ {
+			g.genParse(np())
+		}
 	case "C17":
 		for i := 0; i < n; i++ {
 			g.genGob(np())
